@@ -123,17 +123,62 @@ fn first_line(s: &str) -> String {
     l.chars().take(160).collect()
 }
 
+/// Strip ANSI escape sequences.
+pub fn strip_ansi(s: &str) -> String {
+    let mut out = String::new();
+    let mut chars = s.chars().peekable();
+    while let Some(c) = chars.next() {
+        if c == '\u{1b}' {
+            if chars.peek() == Some(&'[') {
+                chars.next();
+                for d in chars.by_ref() {
+                    if d.is_ascii_alphabetic() {
+                        break;
+                    }
+                }
+            }
+        } else {
+            out.push(c);
+        }
+    }
+    out
+}
+
+/// Render every type-checker report of a rejected analysis the way the CLI does (ariadne, source caches).
+pub fn render_reports(a: &ProgramAnalysis) -> Vec<String> {
+    let Some(reports) = a.outcome().reports() else { return Vec::new() };
+    reports
+        .reports
+        .iter()
+        .map(|r| {
+            let mut buf: Vec<u8> = Vec::new();
+            let _ = r.write(zydeco_session::SourceCaches::analysis(a), &mut buf);
+            strip_ansi(&String::from_utf8_lossy(&buf))
+        })
+        .collect()
+}
+
 pub fn verdict_of(result: &Result<Arc<ProgramAnalysis>, AnalysisError>) -> Verdict {
     match result {
         | Ok(a) => match a.outcome() {
             | AnalysisOutcome::Checked { .. } => Verdict::Accepted,
-            | AnalysisOutcome::Rejected { reports } => Verdict::Rejected {
-                messages: reports
-                    .spans
-                    .iter()
-                    .map(|s| s.as_ref().map(|x| first_line(&x.2)).unwrap_or_else(|| "<no span>".into()))
-                    .collect(),
-            },
+            | AnalysisOutcome::Rejected { reports } => {
+                let rendered = if reports.spans.iter().any(|s| s.is_none()) { render_reports(a) } else { Vec::new() };
+                Verdict::Rejected {
+                    messages: reports
+                        .spans
+                        .iter()
+                        .enumerate()
+                        .map(|(i, s)| match s {
+                            | Some(x) => first_line(&x.2),
+                            | None => rendered
+                                .get(i)
+                                .map(|t| first_line(t.trim_start_matches("Error: ")))
+                                .unwrap_or_else(|| "<no span>".into()),
+                        })
+                        .collect(),
+                }
+            }
         },
         | Err(AnalysisError::Source { error }) => Verdict::Source { message: first_line(&error.to_string()) },
         | Err(AnalysisError::TextualProgram { error }) => {
